@@ -200,11 +200,18 @@ def newRefs (pre : Option (List Entry)) (post : List Entry) : List Nat :=
   let prev := match pre with | some p => refSet p | none => []
   if newRefsAreDifference then (refSet post).filter (fun u => !prev.contains u) else refSet post
 
+/-- `sort_unstable(); dedup()` -/
+def insertSorted (x : Nat) : List Nat → List Nat
+  | [] => [x]
+  | y :: ys => if x < y then x :: y :: ys else if x == y then y :: ys else y :: insertSorted x ys
+
+def sortDedup (l : List Nat) : List Nat := l.foldr insertSorted []
+
 /-- `check_uuids_exist_fast`. -/
 def existFast (s : State) (us : List Nat) : Bool :=
   if us.isEmpty then true
   else
-    let distinct := us.eraseDups
+    let distinct := sortDedup us
     let found :=
       if distinct.all (inIndex s) then
         s.filter (fun e => distinct.contains e.uuid && (!existsFastHidesMasked || e.st == .live))
@@ -369,6 +376,10 @@ def opModify (s : State) (u : Nat) (mods : List Mod) : Res :=
       | some er => .err er
       | none => .ok s1
 
+/-- The `directmemberof` stash handed to `opDelete` for entry `u`. -/
+def stashOf (stash : List (Nat × List Nat)) (u : Nat) : List Nat :=
+  match stash.find? (·.1 == u) with | some p => p.2 | none => []
+
 /-- memberof `pre_delete` + `to_recycled` (+ the `cascade_deleted` stash of delete.rs). -/
 def recycle (stash : List (Nat × List Nat)) (cascade : Bool) (e : Entry) : Entry :=
   let e1 := if cascade then
@@ -376,29 +387,39 @@ def recycle (stash : List (Nat × List Nat)) (cascade : Bool) (e : Entry) : Entr
       | some r => { e with attrs := (e.erase aCascade).attrs ++ [(aCascade, .keys .plainUuid [r])] }
       | none => e
     else e
-  let dmo := match stash.find? (·.1 == e.uuid) with | some p => p.2 | none => []
+  let dmo := stashOf stash e.uuid
   let e2 := (e1.erase aMemberOf).erase aDirectMemberOf
   let e3 := if dmo.isEmpty then e2.erase aRdmo else (e2.erase aRdmo).set aRdmo (.keys .refer dmo)
   { e3 with st := .recycled }
 
+/-- The uuids `delete` selects: live entries among `us` (`filter!`). -/
+def deleteTargets (s : State) (us : List Nat) : List Nat :=
+  (s.filter (fun e => e.st == .live && us.contains e.uuid)).map (·.uuid)
+
+/-- delete.rs: live entries whose `refers` names a candidate are deleted with it. -/
+def deleteCascade (s : State) (tu : List Nat) : List Nat :=
+  if cascadeDeletesReferrers then
+    (s.filter (fun e => e.st == .live &&
+      (match e.refersTarget with | some r => tu.contains r | none => false))).map (·.uuid)
+  else []
+
+def recycleAll (s : State) (stash : List (Nat × List Nat)) (tu cu : List Nat) : State :=
+  s.map (fun e =>
+    if e.st == .live && tu.contains e.uuid then recycle stash false e
+    else if e.st == .live && cu.contains e.uuid then recycle stash true e
+    else e)
+
 /-- `delete` of the live entries among `us`; `stash u` = the `directmemberof` of `u` that the
 memberof plugin moves to `recycled_directmemberof` (an input: memberof is C17's model). -/
 def opDelete (s : State) (us : List Nat) (stash : List (Nat × List Nat)) : Res :=
-  let targets := s.filter (fun e => e.st == .live && us.contains e.uuid)
-  if targets.isEmpty then .err .noMatch
+  let tu := deleteTargets s us
+  if tu.isEmpty then .err .noMatch
   else
-    let tu := targets.map (·.uuid)
-    let casc := if cascadeDeletesReferrers then
-        s.filter (fun e => e.st == .live && (match e.refersTarget with | some r => tu.contains r | none => false))
-      else []
-    let cu := casc.map (·.uuid)
+    let cu := deleteCascade s tu
     -- debug assertion of delete.rs: the cascade set is disjoint from the candidates
     if cu.any (tu.contains ·) then .err .invalid
     else
-      let s1 := s.map (fun e =>
-        if e.st == .live && tu.contains e.uuid then recycle stash false e
-        else if e.st == .live && cu.contains e.uuid then recycle stash true e
-        else e)
+      let s1 := recycleAll s stash tu cu
       if postDeleteRemovesCandidates then
         match removeReferences s1 (tu ++ cu) with
         | some s2 => .ok s2
@@ -437,34 +458,35 @@ def readdAll (s : State) : List (Nat × List Nat) → Res
     | .ok s1 => readdAll s1 rest
     | .err e => .err e
 
-def insertSorted (x : Nat) : List Nat → List Nat
-  | [] => [x]
-  | y :: ys => if x < y then x :: y :: ys else if x == y then y :: ys else y :: insertSorted x ys
+/-- The candidates of `revive_recycled`: the recycled entries among `us` (`filter_rec!`) and the
+recycled entries whose `cascade_deleted` names one of them. -/
+def reviveCands (s : State) (us : List Nat) : List Entry :=
+  let pre0 := s.filter (fun e => e.st == .recycled && us.contains e.uuid)
+  let pu := pre0.map (·.uuid)
+  pre0 ++ s.filter (fun e => e.st == .recycled && !pu.contains e.uuid &&
+    (match e.cascadeOf with | some r => pu.contains r | none => false))
 
-def sortDedup (l : List Nat) : List Nat := l.foldr insertSorted []
+def reviveState (s : State) (cu : List Nat) : State :=
+  s.map (fun e => if e.st == .recycled && cu.contains e.uuid then reviveEntry e else e)
+
+/-- `dm_mods`: group ↦ members to put back, in ascending group order. -/
+def reviveMods (pre : List Entry) : List (Nat × List Nat) :=
+  let groups := sortDedup (pre.flatMap (fun e => match e.get aRdmo with | some vs => vs.refs | none => []))
+  groups.map (fun g =>
+    (g, (pre.filter (fun e => match e.get aRdmo with | some vs => vs.refs.contains g | none => false)).map (·.uuid)))
 
 /-- `revive_recycled` (non-internal identity: an empty candidate set is an error). -/
 def opRevive (s : State) (us : List Nat) : Res :=
-  let pre0 := s.filter (fun e => e.st == .recycled && us.contains e.uuid)
-  if pre0.isEmpty then .err .noMatch
+  let pre := reviveCands s us
+  if pre.isEmpty then .err .noMatch
   else
-    let pu := pre0.map (·.uuid)
-    let casc := s.filter (fun e => e.st == .recycled && !pu.contains e.uuid &&
-      (match e.cascadeOf with | some r => pu.contains r | none => false))
-    let pre := pre0 ++ casc
-    let cu := pre.map (·.uuid)
     let post := pre.map reviveEntry
-    let s1 := s.map (fun e => if e.st == .recycled && cu.contains e.uuid then reviveEntry e else e)
+    let s1 := reviveState s (pre.map (·.uuid))
     if post.any (fun e => !e.schemaOk) then .err .invalid
     else
     match postModifyInner s1 (some pre) post with
     | some er => .err er
-    | none =>
-      -- dm_mods: group ↦ members to put back, in ascending group order
-      let groups := sortDedup (pre.flatMap (fun e => match e.get aRdmo with | some vs => vs.refs | none => []))
-      let mods := groups.map (fun g =>
-        (g, (pre.filter (fun e => match e.get aRdmo with | some vs => vs.refs.contains g | none => false)).map (·.uuid)))
-      readdAll s1 mods
+    | none => readdAll s1 (reviveMods pre)
 
 /-- `purge_recycled` with every recycled entry past the recycle-bin age: `to_tombstone`. -/
 def opPurgeRecycled (s : State) : Res :=
@@ -477,25 +499,41 @@ def opPurgeTombstones (s : State) : Res :=
 /-- `to_conflict` -/
 def toConflict (e : Entry) : Entry := { e with st := .recycled }
 
+/-- The db entry a replicated candidate is merged over; an unknown uuid gets a stub without
+attributes (which `mask_recycled_ts` counts as live). -/
+def preOf (s : State) (c : Entry) : Entry :=
+  match find s c.uuid with
+  | some e => e
+  | none => { uuid := c.uuid, st := .live, dyn := false, must := [], attrs := [] }
+
+/-- `post_repl_incremental_conflict`: live entries that `refers` to a conflict uuid. -/
+def conflictHits (s1 : State) (conflicts : List Nat) : List Nat :=
+  if conflicts.isEmpty then [] else
+    (s1.filter (fun e => e.st == .live &&
+      (match e.refersTarget with | some r => conflicts.contains r | none => false))).map (·.uuid)
+
+def conflictState (s1 : State) (hit : List Nat) : State :=
+  s1.map (fun e => if hit.contains e.uuid then toConflict e else e)
+
+/-- `post_repl_incremental`: the uuids handed to `remove_references`. -/
+def replRemoveSet (s s2 : State) (cand : List Entry) (conf2 : List Nat) : List Nat :=
+  let pre := cand.map (preOf s)
+  let uuids := newRefs (some pre) cand
+  let missing := if existFast s2 uuids then [] else existSlow s2 uuids
+  let inactive := cand.filterMap (fun c =>
+    if becameInactive ((preOf s c).st == .live) (c.st == .live) then some c.uuid else none)
+  (if replRemovesMissing then missing else [])
+    ++ (if replRemovesConflicts then conf2 else [])
+    ++ (if replRemovesInactive then inactive else [])
+
 /-- The consumer's incremental apply as refint sees it: `cand` are the merged entries written by
 `incremental_apply` (any state, any content — the merge itself is not modelled), `conflicts` the
 uuid-conflict survivors.  Then `post_repl_incremental_conflict` and `post_repl_incremental`. -/
 def opRepl (s : State) (cand : List Entry) (conflicts : List Nat) : Res :=
-  let pre := cand.map (fun c => match find s c.uuid with | some e => e | none => { uuid := c.uuid, st := .live, dyn := false, must := [], attrs := [] })
   let s1 := upsertAll s cand
-  -- post_repl_incremental_conflict: live entries that `refers` to a conflict uuid become conflicts
-  let hit := if conflicts.isEmpty then [] else
-    (s1.filter (fun e => e.st == .live && (match e.refersTarget with | some r => conflicts.contains r | none => false))).map (·.uuid)
-  let s2 := s1.map (fun e => if hit.contains e.uuid then toConflict e else e)
-  let conf2 := conflicts ++ hit
-  -- post_repl_incremental
-  let uuids := newRefs (some pre) cand
-  let missing := if existFast s2 uuids then [] else existSlow s2 uuids
-  let inactive := (pre.zip cand).filterMap (fun pc =>
-    if becameInactive (pc.1.st == .live) (pc.2.st == .live) then some pc.2.uuid else none)
-  let rm := (if replRemovesMissing then missing else [])
-    ++ (if replRemovesConflicts then conf2 else [])
-    ++ (if replRemovesInactive then inactive else [])
+  let hit := conflictHits s1 conflicts
+  let s2 := conflictState s1 hit
+  let rm := replRemoveSet s s2 cand (conflicts ++ hit)
   if rm.isEmpty then .ok s2
   else match removeReferences s2 rm with
     | some s3 => .ok s3
